@@ -70,7 +70,8 @@ class Harness:
         self.loop_contracts = loop_contracts
         self.defs, self.shadow, self.i386 = list(defs), shadow, i386
         self.unwind, self.unwindset = unwind, list(unwindset)
-        self.solvers, self.timeout = list(solvers), timeout
+        # registered time-outs are about 4x the time measured on the idle 16-core machine; the scale factor leaves headroom for a loaded one
+        self.solvers, self.timeout = list(solvers), int(timeout * float(os.environ.get("VERIF_TIMEOUT_SCALE", "2")))
         self.tiers = set(tiers)
         self.bounded = bounded            # None = unbounded proof; else text
         self.cbmc_flags = list(cbmc_flags)
